@@ -55,6 +55,17 @@ CHECKS = {
         note="Alphabet of strings is finite (ASCII punctuation, a few non-ASCII characters); resolution through a live name server is not part of this check.",
         design_ref="DESIGN.md section 3 C19",
     ),
+    "C14": dict(
+        engine="S",
+        technique="explicit-state breadth-first search over operation histories on the real name server (both back-ends) in lock-step with a dict model; statement-level fault enumeration",
+        text="BFS from two initial states over a 70-130 letter alphabet of mutating operations (names with case pairs, SQL wildcards, regex metacharacters, unicode, empty "
+             "string, the server's own name), states deduplicated by (map, memory storage contents, raw sqlite rows); in every state ~100 queries (lookup, list plain/"
+             "prefix/regex/metadata, yplookup all/any with sets and duplicate lists, count, invalid combinations) are compared three-way, the database is reopened, the "
+             "state is rebuilt directly for a differential check, and for the shallow levels every statement and commit of every mutating operation is made to fail, "
+             "after which the reopened map must equal the pre-state and no orphan rows may remain.",
+        note="Failure points are sqlite statement/commit failures (not process crashes); depth and state caps are reported in the evidence.",
+        design_ref="DESIGN.md section 3 C14",
+    ),
 }
 
 NOT_YET = {}
